@@ -316,6 +316,8 @@ pub fn bases() -> Vec<(&'static str, Vec<Member>)> {
         ("disclosure_in_disclosure", vec![m("p", Node::Obj(vec![m("q", leaf(json!(1)), true), m("r", leaf(json!(2)), false)]), true), m("v", leaf(json!(0)), false)]),
         ("array_in_array_element", vec![m("arr", Node::Arr(vec![e(Node::Arr(vec![e(leaf(json!(1)), true), e(leaf(json!(3)), false)]), true)]), false)]),
         ("hidden_member_with_array", vec![m("h", Node::Arr(vec![e(leaf(json!(1)), true), e(Node::Obj(vec![m("w", leaf(json!(2)), true)]), false)]), true)]),
+        ("no_sd_at_all", vec![m("v", leaf(json!(1)), false), m("o", Node::Obj(vec![m("k", leaf(json!([1, 2])), false)]), false)]),
+        ("single_disclosure", vec![m("x", leaf(json!("only")), true)]),
         ("everything", vec![
             m("a", Node::Obj(vec![m("b", Node::Arr(vec![e(leaf(json!(1)), true), e(Node::Obj(vec![m("c", leaf(json!(2)), true)]), true)]), true), m("e", leaf(json!({})), true)]), true),
             m("f", leaf(json!([])), false),
